@@ -42,7 +42,8 @@ ASSUMPTIONS = ["boundaries are finite with lo <= hi, and lo > 0 for logarithmic 
 EXPLANATION = "single path per layout; LRA + UF(pow10/log10)"
 
 KEY_A = "pipeline.photon_collection.probe.arguments.a"
-KEY_B = "pipeline.photon_collection.probe.arguments.b"
+KEY_B = "pipeline.charge_generation.probe2.arguments.a"  # same argument name as KEY_A, in another model
+KEY_BW = "pipeline.photon_collection.probe.arguments.b"  # the witness calibration has a single model
 KEY_V = "pipeline.charge_generation.probe2.arguments.v"
 KEY_W = "pipeline.charge_generation.probe2.arguments.w"
 KEYS = [KEY_A, KEY_V, KEY_B, KEY_W]
@@ -100,7 +101,7 @@ def _processor(nv):
     det = make_ccd(2, 2)
     pipe = DetectionPipeline(
         photon_collection=[ModelFunction(func="vxprobes.probe", name="probe", arguments={"a": 1.0, "b": 2.0})],
-        charge_generation=[ModelFunction(func="vxprobes.probe_a", name="probe2", arguments={"v": [0.0] * 3, "w": [0.0] * 3})],
+        charge_generation=[ModelFunction(func="vxprobes.probe_a", name="probe2", arguments={"v": [0.0] * 3, "w": [0.0] * 3, "a": 2.0})],
     )
     return Processor(detector=det, pipeline=pipe)
 
@@ -127,9 +128,37 @@ def _build(layout, bnds, symbolic):
                 values = tuple(values)
             b = [tuple(x) for x in bnds[k]] if per else tuple(bnds[k][0])
         variables.append(ParameterValues(key=key, values=values, boundaries=b, logarithmic=lg))
-    prob = ModelFittingDataTree.__new__(ModelFittingDataTree)
-    prob._variables = variables
+    prob = _construct(variables, layout)
     return prob, variables
+
+
+def _construct(variables, layout):
+    """The problem object through its real constructor (whatever it pre-computes from the variables is then in place); only the loading
+    of the target file is replaced - by a 2x2 frame of zeros."""
+    import importlib
+
+    from pyxel.calibration.util import FitRange2D, FitRange3D
+    from pyxel.exposure import Readout
+
+    from vx import fakexr
+
+    from .c11_fitness import _xr_shim
+
+    fd = importlib.import_module("pyxel.calibration.fitting_datatree")
+    symbolic_np = getattr(fd, "np") is not np
+    with Patch() as q:
+        if symbolic_np:
+            q.attr(fd, "xr", _xr_shim(), "fake DataArray")
+            q.sysmodule("xarray", _xr_shim(), "late imports of xarray")
+            q.attr(fd, "create_processor_data_array", lambda filenames: fakexr.DataArray(symnp.zeros((1, 2, 2)), dims=("processor", "y", "x")), "target file: zeros")
+        else:
+            import xarray as xr
+
+            q.attr(fd, "create_processor_data_array", lambda filenames: xr.DataArray(np.zeros((1, 2, 2)), dims=("processor", "y", "x")), "target file: zeros")
+        return fd.ModelFittingDataTree(
+            processor=_proc_for(layout), variables=variables, readout=Readout(), simulation_output="pixel", generations=1, population_size=2,
+            fitness_func=lambda simulated, target, weighting: 0.0, file_path=None, target_fit_range=FitRange2D(row=slice(0, 2), col=slice(0, 2)),
+            out_fit_range=FitRange3D(time=slice(None, None), row=slice(0, 2), col=slice(0, 2)), target_filenames=["target.npy"])
 
 
 def _proc_for(layout):
@@ -138,7 +167,7 @@ def _proc_for(layout):
     det = make_ccd(2, 2)
     pipe = DetectionPipeline(
         photon_collection=[ModelFunction(func="vxprobes.probe", name="probe", arguments={"a": 1.0, "b": 2.0, "c": [0.0, 0.0, 0.0]})],
-        charge_generation=[ModelFunction(func="vxprobes.probe_a", name="probe2", arguments={"v": [0.0] * 3, "w": [0.0] * 3})],
+        charge_generation=[ModelFunction(func="vxprobes.probe_a", name="probe2", arguments={"v": [0.0] * 3, "w": [0.0] * 3, "a": 2.0})],
     )
     return Processor(detector=det, pipeline=pipe)
 
@@ -345,7 +374,7 @@ def _evaluated(algo, solver, corner):
             kw.update(nlopt_solver=solver, maxeval=20)
         cal = Calibration(target_data_path=[tfile], fitness_function=FitnessFunction(func="pyxel.calibration.fitness.sum_of_abs_residuals"),
                           algorithm=Algorithm(**kw), num_islands=1, num_evolutions=1,
-                          parameters=[ParameterValues(key=KEY_A, values="_", boundaries=BOX["a"]), ParameterValues(key=KEY_B, values="_", boundaries=BOX["b"], logarithmic=True)],
+                          parameters=[ParameterValues(key=KEY_A, values="_", boundaries=BOX["a"]), ParameterValues(key=KEY_BW, values="_", boundaries=BOX["b"], logarithmic=True)],
                           readout=Readout(), pygmo_seed=5, pipeline_seed=3, result_type="pixel")
         pipe = DetectionPipeline(photon_collection=[ModelFunction(func="vxprobes.probe", name="probe", arguments={"a": 3.0, "b": 2.0})])
         try:
